@@ -7,12 +7,12 @@ EXTENDS OtlpRetryContract, TraceKit
 VARIABLES l, m, cur, grps
 vars == <<l, m, cur, grps>>
 NoCfg == [proto |-> "http", enabled |-> FALSE, maxel |-> 0, boffmax |-> 0, tol |-> 0, atto |-> 0, cto |-> 0, tick |-> 1,
-          want |-> NoWant, nhdr |-> 0, enc |-> "none", grp |-> 0]
+          want |-> NoWant, nhdr |-> 0, enc |-> "none", grp |-> 0, dl |-> 0]
 (* largest interval the exponential backoff can produce: 1.5 x max(InitialInterval, MaxInterval) *)
 CfgOf(e) == [proto |-> e.proto, enabled |-> e.enabled, maxel |-> e.maxel,
-             boffmax |-> (3 * Max(e.initial, e.maxint)) \div 2 + 1,
+             boffmax |-> Max(e.initial, e.maxint) + Max(e.initial, e.maxint) \div 2 + 1,   \* (no 3 * x: 32-bit integers, intervals up to 400 s in us)
              tol |-> e.tol, atto |-> e.atto, cto |-> e.cto, tick |-> e.tick, want |-> e.want,
-             nhdr |-> e.nhdr, enc |-> e.enc, grp |-> e.grp]
+             nhdr |-> e.nhdr, enc |-> e.enc, grp |-> e.grp, dl |-> e.dl]
 (* scenarios of one group run the same exporter and script and differ in the exporter-option dimension only:
    the outcome must not depend on it (soft: believed when the whole group repeats it) *)
 (* with a small export timeout of the whole call a retry may still slip out right at the deadline: the number of
